@@ -720,9 +720,19 @@ fn infer_generic_member(
         let type_index = db.get_type_index();
         if let Some(type_decl) = type_index.get_type_decl(base_type_decl_id)
             && type_decl.is_alias()
-            && let Some(origin_type) = type_decl.get_alias_origin(db, Some(&substitutor))
         {
-            return infer_member_by_lookup(db, cache, &origin_type, lookup, &infer_guard.fork());
+            // A generic alias may expand to itself (`---@alias A<T> T | A<T[]>`); this
+            // expansion does not pass through `infer_custom_type_member`, so guard it here.
+            infer_guard.check(base_type_decl_id)?;
+            if let Some(origin_type) = type_decl.get_alias_origin(db, Some(&substitutor)) {
+                return infer_member_by_lookup(
+                    db,
+                    cache,
+                    &origin_type,
+                    lookup,
+                    &infer_guard.fork(),
+                );
+            }
         }
 
         let result = infer_generic_members_from_super_generics(
@@ -1011,6 +1021,8 @@ fn infer_member_by_index_generic(
         .get_type_decl(&type_decl_id)
         .ok_or(InferFailReason::None)?;
     if type_decl.is_alias() {
+        // same guard as in `infer_generic_member`: a generic alias may expand to itself
+        infer_guard.check(&type_decl_id)?;
         if let Some(origin_type) = type_decl.get_alias_origin(db, Some(&substitutor)) {
             return infer_member_by_operator_key_type(
                 db,
